@@ -769,7 +769,6 @@ def enumerate_items(thorough):
     both = ("head", "arg")
     delb = [b for b in binders if S.B[b]["embed"] is None]
     cmd_uses = [u for u in uses if S.USES[u]["cmd"]]
-    core_cmd = ["sub-flag", "bare", "pipe", "gt", "attr-flag"]
     stmt_wraps = [w for w in wraps if not S.WRAPS[w][0]]
     reps = ["assign", "for", "param-pos", "import", "with", "global-func"]
     fam_reps = list({S.B[b]["family"]: b for b in reversed(binders)}.values())[::-1]  # first binder of each family
@@ -778,11 +777,12 @@ def enumerate_items(thorough):
     with _Slice("py: every binder in its minimal context"):
         for b in binders:
             add(("py", _T(b=b)))
-    with _Slice("py: binder x use x focus (module level)"):
+    with _Slice("py: binder x use (module level; both focuses for core uses, all uses in thorough)"):
         for b in binders:
             for u in uses:
                 for f in both:
-                    add(("py", _T(b=b, u=u, f=f)))
+                    if thorough or f == "head" or u in core:
+                        add(("py", _T(b=b, u=u, f=f)))
     if not thorough:
         with _Slice("py: binder x placement(depth<=2) x focus"):
             for o, i in pl2:
@@ -799,7 +799,7 @@ def enumerate_items(thorough):
                 for b in binders:
                     add(("py", _T(b=b, w=w)))
             for w in wraps:
-                for b in reps:
+                for b in reps[:3]:
                     for u in uses:
                         add(("py", _T(b=b, w=w, u=u)))
         with _Slice("py: binder x interlude x {module, function}"):
@@ -814,42 +814,43 @@ def enumerate_items(thorough):
                 for b in binders:
                     add(("py", _T(b=b, b2="assign", f=f)))
     else:
-        with _Slice("py: binder x placement(depth<=3) x 4 uses x focus"):
+        with _Slice("py: binder x placement(depth<=3) x {sub-flag x focus, bare, and, semi}"):
             for o, i in pl3:
                 for b in binders:
-                    for u in ("sub-flag", "bare", "and", "semi"):
-                        for f in both:
-                            add(("py", _T(b=b, o=o, i=i, u=u, f=f)))
+                    for f in both:
+                        add(("py", _T(b=b, o=o, i=i, f=f)))
+                    for u in ("bare", "and", "semi"):
+                        add(("py", _T(b=b, o=o, i=i, u=u)))
         with _Slice("py: binder x placement(depth<=2) x every use"):
             for o, i in pl2:
                 for b in binders:
                     for u in uses:
                         add(("py", _T(b=b, o=o, i=i, u=u)))
-        with _Slice("py: binder x wrapper x placement(depth<=1) x 3 uses; one binder per family x wrapper x every use"):
-            for o, i in pl1:
+        with _Slice("py: binder x wrapper x 3 placements x 2 uses; one binder per family x wrapper x every use"):
+            for o, i in (("", ""), ("f", ""), ("", "f")):
                 for w in wraps:
                     for b in binders:
-                        for u in ("sub-flag", "and", "semi"):
+                        for u in ("sub-flag", "and"):
                             add(("py", _T(b=b, o=o, i=i, w=w, u=u)))
             for w in wraps:
                 for b in fam_reps:
                     for u in uses:
                         add(("py", _T(b=b, w=w, u=u)))
-        with _Slice("py: binder x interlude x placement(depth<=2); x placement(depth<=1) x `and`"):
-            for o, i in pl2:
-                for mid in mids:
-                    for b in binders:
-                        add(("py", _T(b=b, o=o, i=i, mid=mid)))
+        with _Slice("py: binder x interlude x placement(depth<=1) x 2 uses"):
             for o, i in pl1:
                 for mid in mids:
                     for b in binders:
-                        add(("py", _T(b=b, o=o, i=i, mid=mid, u="and")))
-        with _Slice("py: binder pairs: every binder x every b2 x {module, function} x focus"):
-            for o in ("", "f"):
-                for b2 in S.B2_OK:
-                    for b in binders:
-                        for f in both:
-                            add(("py", _T(b=b, o=o, f=f, b2=b2)))
+                        for u in ("sub-flag", "and"):
+                            add(("py", _T(b=b, o=o, i=i, mid=mid, u=u)))
+        with _Slice("py: binder pairs: every binder x every b2 x focus"):
+            for b2 in S.B2_OK:
+                for b in binders:
+                    for f in both:
+                        add(("py", _T(b=b, f=f, b2=b2)))
+            for b2 in S.B2_OK:
+                add(("py", _T(b="assign", o="f", b2=b2)))
+            for b in binders:
+                add(("py", _T(b=b, o="f", b2="assign")))
 
     # ---------------- clause (c)
     with _Slice("del: binder x scope x del form x use x wrapper"):
@@ -865,15 +866,17 @@ def enumerate_items(thorough):
                     add(("del", _T(b=b, o=o), "del"))
             for b in delb:
                 for u in cmd_uses:
-                    add(("del", _T(b=b, u=u), "del"))
+                    if b in fam_reps or u in core:
+                        add(("del", _T(b=b, u=u), "del"))
             for w in stmt_wraps:
                 for b in delb:
-                    add(("del", _T(b=b, w=w), "del"))
+                    if b in fam_reps:
+                        add(("del", _T(b=b, w=w), "del"))
         else:
             for o in sc2:
                 for dform in S.DEL_ORDER:
                     for b in delb:
-                        for u in core_cmd:
+                        for u in ("sub-flag", "bare", "pipe"):
                             add(("del", _T(b=b, o=o, u=u), dform))
             for o in sc3:
                 for b in delb:
@@ -883,6 +886,7 @@ def enumerate_items(thorough):
                 for b in delb:
                     for u in cmd_uses:
                         add(("del", _T(b=b, o=o, u=u), "del"))
+            for o in ("", "f"):
                 for w in stmt_wraps:
                     for dform in ("del", "del-multi", "del-in-with"):
                         for b in delb:
@@ -898,13 +902,21 @@ def enumerate_items(thorough):
         else:
             progs += [_T(b=b, u="semi") for b in binders]
             progs += [_T(o=o, i=i, u=u) for o, i in pl3 for u in ("sub-flag", "semi")]
-            progs += [_T(u=u, w=w) for u in uses for w in wraps]
+            progs += [_T(u=u) for u in uses]
+            progs += [_T(u=u, w=w) for u in core for w in wraps]
             mid_progs = [p for p in progs if p[4] == "none"]
         progs = list(dict.fromkeys(progs))
-        for sep in ("nl", "semi"):
-            for tail in S.TAIL_ORDER:
-                for p in progs:
-                    add(("at", p, tail, sep, "end"))
+        if thorough:
+            semi_progs = progs
+        else:
+            semi_progs = [p for p in progs if p[0] in fam_reps]
+            mid_progs = [p for p in mid_progs if p[0] in fam_reps]
+        for tail in S.TAIL_ORDER:
+            for p in progs:
+                add(("at", p, tail, "nl", "end"))
+        for tail in S.TAIL_ORDER:
+            for p in semi_progs:
+                add(("at", p, tail, "semi", "end"))
         for tail in S.TAIL_ORDER:
             for p in mid_progs:
                 add(("at", p, tail, "nl", "mid"))
